@@ -224,6 +224,9 @@ impl EffectBackend for SimBackend {
                 }
             }
             NativeEffect::FileRead { resource_id, offset, length } => {
+                // the native backend allocates the read buffer it is asked for (`vec![0u8; length]`):
+                // an absurd length is an allocation failure, i.e. an abort of the host
+                assert!(length <= 1usize << 34, "memory allocation of {length} bytes failed (read buffer of the requested length)");
                 let op = BackendOp::Read { rid: resource_id };
                 match st.open.get(&resource_id).cloned() {
                     None => (op, Err(Error::InvalidArgument(format!("Resource {} not found", resource_id)))),
@@ -369,6 +372,7 @@ impl EffectBackend for SimBackend {
                 }
             }
             NativeEffect::TcpSocketRead { resource_id, length } => {
+                assert!(length <= 1usize << 34, "memory allocation of {length} bytes failed (read buffer of the requested length)");
                 let op = BackendOp::Read { rid: resource_id };
                 match st.sockets.get(&resource_id).copied() {
                     None => (op, Err(Error::InvalidArgument(format!("Resource {} not found", resource_id)))),
